@@ -8,7 +8,9 @@ CONSTANTS
   FixTotalMax = FALSE
   FixRecoverAuth = FALSE
   FixBlockComponents = FALSE
-INVARIANTS TypeOK AlwaysRunning BoundedCatchup
+  SetRoundSkipsExisting = TRUE
+  WalEncoderLimit = FALSE
+INVARIANTS TypeOK AlwaysRunning BoundedCatchup TrackedRange
 PROPERTIES InvalidIsStutter DirectOnlyNil
 VIEW View
 CHECK_DEADLOCK FALSE
